@@ -293,6 +293,9 @@ type Hold struct {
 	Site  string `json:"site"`
 	Match string `json:"match"` // substring of the canonical key
 	Delay Dur    `json:"delay"`
+	// Nth (sites "auto.*" only): the hold applies to the Nth (0-based) automatic yield
+	// that the ingestion worker processing the update matched by Match passes.
+	Nth int `json:"nth,omitempty"`
 }
 
 // InstOpts are the app.Options the scenario varies.
@@ -306,7 +309,7 @@ type InstOpts struct {
 	MaxSilences         int `json:"max_silences,omitempty"`
 	MaxSilenceSize      int `json:"max_silence_size,omitempty"`
 	GetConcurrency      int `json:"get_concurrency,omitempty"`
-	Workers             int `json:"workers,omitempty"` // ingestion workers (via GOMAXPROCS at construction)
+	Workers             int `json:"workers,omitempty"` // ingestion workers (2..8; through the dispatch.concurrency hook)
 
 	// Cluster.
 	Cluster           bool `json:"cluster,omitempty"`
@@ -339,7 +342,12 @@ type Plan struct {
 	Actions []Action   `json:"actions"`
 	Faults  []RcvFault `json:"rcv_faults,omitempty"`
 	Holds   []Hold     `json:"holds,omitempty"`
-	Net     *NetPlan   `json:"net,omitempty"`
+	// RecvJitter > 0: every ingestion worker is delayed, between taking an alert
+	// and routing it, by a duration below RecvJitter that is a function of the
+	// alert's whole content. Versions of one alert submitted at the same instant
+	// are then inserted in an order the plan decides, not the Go scheduler.
+	RecvJitter Dur      `json:"recv_jitter,omitempty"`
+	Net        *NetPlan `json:"net,omitempty"`
 	// Vers are crafted versions of replicated records that "deliver" actions refer to.
 	Vers []PVer `json:"vers,omitempty"`
 	// LabelSets are the label sets probes are made for.
